@@ -175,9 +175,13 @@ def audit(ctx, props_module, required):
     names = theorem_names(props_module)
     missing = [r for r in required if r not in names]
     os.makedirs(os.path.join(BUILD, "audit"), exist_ok=True)
-    f = os.path.join(BUILD, "audit", ctx.pid + "_axioms.lean")
+    f = os.path.join(BUILD, "audit", "%s_axioms_%d.lean" % (ctx.pid, os.getpid()))  # per process: parallel runs of one property
     open(f, "w").write("import %s\n" % props_module + "".join("#print axioms %s\n" % n for n in names))
     r = sh(["lake", "env", "lean", f], cwd=LEAN, timeout=900)
+    try:
+        os.remove(f)
+    except OSError:
+        pass
     text = r.stdout + r.stderr
     obligations = []
     flat = re.sub(r"\s+", " ", text)
@@ -413,7 +417,7 @@ def standard_flow(ctx, spec):
         violations.append(p)
         rc = 1
     coverage = {"obligations": n_obl, "discharged": n_dis if not (rc and proof_problems) else min(n_dis, max(n_obl - 1, 0)),
-                "checker_cmd": "cd /verif/lean && lake build %s && lake env lean ../build/audit/%s_axioms.lean  (#print axioms on every theorem of %s)"
+                "checker_cmd": "cd /verif/lean && lake build %s && lake env lean <file with `#print axioms` for every theorem of the module; written to build/audit/%s_axioms_<pid>.lean>  (#print axioms on every theorem of %s)"
                                % (" ".join(spec.lean_targets), ctx.pid, spec.props_module),
                 "trusted_base": spec.trusted_base,
                 "theorems": [{"name": o["theorem"], "axioms": o["axioms"]} for o in au["obligations"]],
